@@ -398,19 +398,61 @@ def run_solo_with_values_iter(calls):
         yield run_solo_with_values([op])[0]
 
 
+def in_cold_child(fn):
+    """Run one concurrent schedule in a forked child of this (so far call-free) interpreter: every
+    schedule starts from the state right after import - lazily built tables, memos and caches are cold,
+    so races on their first filling are reachable in every run, not only in the first of a process."""
+    import os
+    if _warm[0]:                   # this process has already run calls itself: no pristine state to fork
+        return fn()
+    r, w = os.pipe()
+    pid = os.fork()
+    if pid == 0:
+        code = 0
+        try:
+            os.close(r)
+            data = json.dumps(fn()).encode()
+            while data:
+                n = os.write(w, data)
+                data = data[n:]
+        except BaseException:  # noqa: BLE001
+            import traceback
+            traceback.print_exc()
+            code = 3
+        finally:
+            os._exit(code)
+    os.close(w)
+    chunks = []
+    while True:
+        b = os.read(r, 1 << 16)
+        if not b:
+            break
+        chunks.append(b)
+    os.close(r)
+    _, status = os.waitpid(pid, 0)
+    if status != 0 or not chunks:
+        raise RuntimeError(f"cold child failed (status {status})")
+    return json.loads(b"".join(chunks))
+
+
+_warm = [False]
+
+
 def main():
     with open(sys.argv[1]) as fp:
         job = json.load(fp)
     results = []
     for j in job["jobs"]:
         mode = j["mode"]
+        if mode not in ("access", "lines"):
+            _warm[0] = True
         if mode == "solo":
             init = snapshot()
             results.append({"init": init, "solo": run_solo_with_values(j["calls"])})
         elif mode == "access":
-            results.append(run_access(j["calls"], j["order"]))
+            results.append(in_cold_child(lambda: run_access(j["calls"], j["order"])))
         elif mode == "lines":
-            results.append(run_lines(j["calls"], j["turns"]))
+            results.append(in_cold_child(lambda: run_lines(j["calls"], j["turns"])))
         elif mode == "count":
             results.append({"count": count_lines(j["calls"])})
         elif mode == "census":
